@@ -89,8 +89,52 @@ class OrderCtx(object):
             if isinstance(k, tuple) and k[0] == "instance":
                 cls = k[1]
             else:
-                return self._by_name(chain[-1])
+                nxt = cls.attr_class(self.model, a)
+                if nxt is None:
+                    return self._by_name(chain[-1])
+                cls = nxt
         return None
+
+    def chain_class(self, t):
+        """class of the object an attribute chain rooted at self denotes, if it can be resolved"""
+        cx = self.cx
+        chain = []
+        x = t
+        while x[0] == "attr":
+            chain.append(x[2])
+            x = x[1]
+        chain.reverse()
+        if not cx.is_self(x) or cx.cls is None:
+            return None
+        cls = cx.cls
+        for a in chain:
+            cls = cls.attr_class(self.model, a)
+            if cls is None:
+                return None
+        return cls
+
+    def iter_kind_of_instance(self, cls):
+        """iterating an instance of a repo class: ORDERED iff its __iter__ draws from sorted(...) (injective key or none)"""
+        lk = cls.lookup("__iter__")
+        if lk is None:
+            return None
+        icx = facts.fctx(self.model, FuncRef(lk[0].module, lk[0], lk[1]))
+        ys = [ev for ev in icx.events if ev.kind == "yield"]
+        if ys and all(ev.loops for ev in ys):
+            oc = OrderCtx(self.model, icx)
+            kinds = [oc.kind(ev.loops[-1][1]) for ev in ys]
+            return ORDERED if all(k == ORDERED for k in kinds) else UNORDERED
+        rets = [ev for ev in icx.events if ev.kind == "return" and ev.value != ("const", None)]
+        if rets:
+            oc = OrderCtx(self.model, icx)
+            kinds = []
+            for ev in rets:
+                v = ev.value
+                if v[0] == "call" and v[1] == ("global", "iter") and len(v[2]) == 1:
+                    v = v[2][0]
+                kinds.append(oc.kind(v))
+            return ORDERED if all(k == ORDERED for k in kinds) else UNORDERED
+        return UNORDERED
 
     def kind(self, t, at_seq=None):
         t0 = t
@@ -140,6 +184,11 @@ class OrderCtx(object):
             ks = [self.kind(g[1], at_seq) for g in t[3]]
             return UNORDERED if UNORDERED in ks else (ORDERED if all(k == ORDERED for k in ks) else CONTENT)
         if t[0] == "attr":
+            c = self.chain_class(t)
+            if c is not None:
+                ik = self.iter_kind_of_instance(c)
+                if ik is not None:
+                    return ik
             k = self.attr_kind(t)
             if k:
                 return k
@@ -154,7 +203,10 @@ class OrderCtx(object):
             ks = [self.kind(x, at_seq) for x in t[1]]
             return UNORDERED if UNORDERED in ks else ks[0]
         if t[0] == "param" and self.cx.is_self(t):
-            return UNORDERED if self.cx.cls is not None and self.cx.cls.lookup("__iter__") is None else ORDERED
+            if self.cx.cls is None:
+                return UNORDERED
+            ik = self.iter_kind_of_instance(self.cx.cls)
+            return ik if ik is not None else UNORDERED
         return SCALAR
 
 
@@ -205,9 +257,15 @@ def r_order(model, rep):
                     n_sites += 1
             # (3) list sinks: an append whose position depends on the iteration order of an unordered loop
             if e.kind == "append" or (e.path and e.path[-1] == ("const", "[]")):
-                for l in e.loops:
-                    if oc.kind(l[1]) == UNORDERED:
-                        problems.append("appended to the output list inside a loop over the unordered %s" % T.show(l[1])[:60])
+                recv = e.ev.value[1][1] if e.ev.kind == "call" and e.ev.value[1][0] == "attr" else None
+                later_sort = [ev for ev in cx.events if recv is not None and ev.kind == "call" and ev.value[1] == ("attr", recv, "sort")
+                              and ev.seq > e.ev.seq and not T.guard_tests(ev) and set(l[0] for l in ev.loops) <= set(l[0] for l in e.loops)
+                              and (dict(ev.value[3]).get("key") is None or (dict(ev.value[3]).get("key")[0] == "lambda"
+                                   and dict(ev.value[3]).get("key")[1].replace(" ", "") in INJECTIVE_KEYS))]
+                if not later_sort:
+                    for l in e.loops:
+                        if oc.kind(l[1]) == UNORDERED:
+                            problems.append("appended to the output list inside a loop over the unordered %s" % T.show(l[1])[:60])
             key = "%s:%s" % (f.qname, "/".join(T.show(p)[:40] for p in e.path))
             if problems or sequence_sinks(v) or (v[0] == "call" and v[1] == ("global", "sorted")):
                 rep.ob("R-ORDER", key, not problems, site=cx.site(e.ev.lineno), msg="; ".join(problems),
@@ -243,6 +301,36 @@ def r_order(model, rep):
         raise AnalysisError("vacuity guard: R-ORDER examined %d order-sensitive sites (floor 9)" % n_sites)
     rep.count("order_sensitive_sites", n_sites)
     # loops whose body emits keyed entries are order-insensitive *because* the containers are sorted on output: R-JSONCFG/R-INICFG
+
+
+def r_builder_order(model, rep):
+    """what the builders store into the tables does not depend on set/dict iteration order"""
+    for q, name in (("rpms.Rpms", "add"), ("modules.Modules", "add"), ("extra_files.ExtraFiles", "add"), ("images.Images", "add")):
+        f = model.own_method(q, name)
+        cx = facts.fctx(model, f)
+        oc = OrderCtx(model, cx)
+        S = P(cx.selfname)
+        bad = []
+        for ev in cx.events:
+            vals = []
+            if ev.kind == "store" and T.root_of(ev.target) == S:
+                vals.append(ev.value)
+            elif ev.kind == "call" and ev.value[1][0] == "attr" and ev.value[1][2] in ("extend", "append", "insert", "setdefault") \
+                    and T.root_of(ev.value[1][1]) == S:
+                vals.extend(ev.value[2])
+            if ev.kind == "call" and ev.value[1][0] == "attr" and ev.value[1][2] in ("extend",) and vals and oc.kind(vals[0], ev.seq) == UNORDERED:
+                bad.append("line %s: extend(%s)" % (ev.lineno, T.show(vals[0])[:70]))
+            for v in vals:
+                for x in T.walk(v):
+                    if x[0] == "call" and x[1][0] == "global" and x[1][1] in ("list", "tuple") and x[2] and oc.kind(x[2][0], ev.seq) == UNORDERED:
+                        bad.append("line %s: %s" % (ev.lineno, T.show(x)[:70]))
+                    if x[0] == "comp" and x[1] in ("list", "gen") and any(oc.kind(g[1], ev.seq) == UNORDERED for g in x[3]):
+                        bad.append("line %s: %s" % (ev.lineno, T.show(x)[:70]))
+                    if x[0] == "local" and T.unwrap(x)[0] in ("list",) and UNORDERED in oc.filled_from.get(x[1:3], []) \
+                            and x[1:3] not in oc.sorted_at:
+                        bad.append("line %s: list %s filled in the order of an unordered container" % (ev.lineno, x[1]))
+        rep.ob("R-ORDER", "%s.%s:stored-values" % (q, name), not bad, site=cx.site(f.node),
+               msg="" if not bad else "a list stored into the manifest is built in set/dict iteration order (depends on the hash seed): %s" % "; ".join(sorted(set(bad))[:3]))
 
 
 def r_jsoncfg(model, rep):
@@ -343,7 +431,8 @@ def r_writer_pure(model, rep):
     """writers store to object state only constants (or the current version): repeated dumps cannot diverge"""
     n = 0
     funcs = writer_functions(model) + [model.own_method("common.MetadataBase", "dump"), model.own_method("common.MetadataBase", "dumps"),
-                                       model.own_method("treeinfo.TreeInfo", "dump"), model.own_method("treeinfo.General", "serialize")]
+                                       model.own_method("treeinfo.TreeInfo", "dump"), model.own_method("treeinfo.General", "serialize"),
+                                       model.own_method("extra_files.ExtraFiles", "dump_for_tree")]
     seen = set()
     for f in funcs:
         if f in seen:
@@ -384,6 +473,7 @@ def check_c08(model, rep, tier):
     rep.not_decided = ["actual byte equality across PYTHONHASHSEED values (follows from the decided clauses)"]
     rep.assumptions = ["json.dump(sort_keys=True) and ConfigParser.write emit keys in the order the mapping yields them"]
     r_order(model, rep)
+    r_builder_order(model, rep)
     r_jsoncfg(model, rep)
     r_inicfg(model, rep)
     r_writer_pure(model, rep)
@@ -546,6 +636,17 @@ def check_c20(model, rep, tier):
     r_layout_order(model, rep)
     r_accessors(model, rep)
     r_rte_wrap(model, rep)
+    # "equals what loading that file directly gives": load() parses the file itself, every time
+    f = model.own_method("common.MetadataBase", "parse_file")
+    pcx = facts.fctx(model, f)
+    rets = [ev for ev in pcx.events if ev.kind == "return"]
+    ok = len(rets) == 1 and all(x[0] == "call" and x[1] == ("global", "json.load") for x in (rets[0].value[1] if rets[0].value[0] == "phi" else (rets[0].value,)))
+    glob = [ev for ev in pcx.events if ev.kind in ("store", "call") and (
+        (ev.kind == "store" and T.root_of(ev.target) is not None and T.root_of(ev.target)[0] == "global") or
+        (ev.kind == "call" and ev.value[1][0] == "global" and ev.value[1][1].split(".")[0].isupper()))]
+    rep.ob("R-RTE-WRAP", "MetadataBase.parse_file:parses-the-file", ok and not glob, site=pcx.site(f.node),
+           msg="" if ok and not glob else "parse_file must return json.load(<the file>) and keep no module-level state (a parsed-document cache "
+                                         "makes separately loaded objects share state)")
     # _file_exists: local paths -> os.path.exists
     f = model.function("common", "_file_exists")
     cx = facts.fctx(model, f)
